@@ -293,8 +293,21 @@ func (wd *World) SnapshotH(versions []string, hints *Hints) (*Snap, error) {
 		}
 	}
 
+	var extras []string
+	for n := range wd.Extra {
+		extras = append(extras, n)
+	}
+	sort.Strings(extras)
 	for _, u := range versions {
 		n := "/api/node/" + u + "/"
+		for _, x := range extras {
+			if err := wd.get(s, n+x+"/keys"); err != nil {
+				return nil, err
+			}
+			if err := wd.get(s, n+x+"/key/k"); err != nil {
+				return nil, err
+			}
+		}
 		for _, ep := range []string{"note", "log", "status"} {
 			if err := wd.get(s, n+ep); err != nil {
 				return nil, err
